@@ -602,3 +602,195 @@ Proof.
   - cbn. tauto.
   - rewrite IH by now apply rm_wf. rewrite (rm_listed _ _ _ _ W). cbn [In]. intuition.
 Qed.
+
+(* ================= the invariant is preserved ================= *)
+Lemma members_inv_wf proj lights td : members_inv proj lights td -> td_wf td.
+Proof. intros [A B _]. split; auto. Qed.
+
+Lemma members_discover proj lights td n v :
+  NoDup (dict_keys lights) -> members_inv proj lights td ->
+  members_inv proj (dict_set n v lights) (update_memberships n (proj v) td).
+Proof.
+  intros N M. pose proof (members_inv_wf _ _ _ M) as W. destruct M as [_ _ X].
+  destruct (upd_wf n (proj v) td W) as [W1 W2]. constructor; auto.
+  intros g m. rewrite (upd_listed _ _ _ _ _ W), X. split.
+  - intros [[-> ->]|[[w [H1 H2]] Hne]].
+    + exists v. split; auto. apply dict_set_In; auto.
+    + exists w. split; auto. apply dict_set_In; auto.
+  - intros [w [H1 H2]]. apply (dict_set_In _ _ _ _ _ N) in H1 as [[-> ->]|[Hne H1]]; eauto.
+Qed.
+
+Lemma dir_inv_counters d ok fl :
+  dir_inv d -> dir_inv (mkDir (d_lights d) (d_names d) (d_groups d) (d_locs d) ok fl).
+Proof. intros [A B C D E]. constructor; auto. Qed.
+
+Lemma dir_inv_empty : dir_inv empty_dir.
+Proof.
+  constructor; cbn.
+  - constructor.
+  - constructor.
+  - tauto.
+  - constructor; cbn; [constructor|tauto|].
+    intros g n. unfold listed. cbn. split; [intros [l [[] _]]|intros [v [[] _]]].
+  - constructor; cbn; [constructor|tauto|].
+    intros g n. unfold listed. cbn. split; [intros [l [[] _]]|intros [v [[] _]]].
+Qed.
+
+Lemma discover_one_inv t d r : dir_inv d -> dir_inv (discover_one t d r).
+Proof.
+  intros [A B C D E]. unfold discover_one. constructor; cbn [d_lights d_names d_groups d_locs].
+  - rewrite sl_add_ins. now apply ins_sorted.
+  - now apply dict_set_NoDup.
+  - intros n. rewrite sl_add_ins, ins_In, dict_set_keys, C. tauto.
+  - apply (members_discover l_group _ _ (r_name r) (mkLight (r_group r) (r_loc r) t)); auto.
+  - apply (members_discover l_loc _ _ (r_name r) (mkLight (r_group r) (r_loc r) t)); auto.
+Qed.
+
+Lemma fold_discover_inv t snap : forall d, dir_inv d -> dir_inv (fold_left (discover_one t) snap d).
+Proof.
+  induction snap as [|r snap IH]; intros d I; cbn [fold_left]; auto.
+  apply IH. now apply discover_one_inv.
+Qed.
+
+Lemma discover_inv d snap t : dir_inv d -> dir_inv (discover d snap t).
+Proof.
+  intros I. unfold discover.
+  apply (dir_inv_counters (fold_left (discover_one t) snap d)). now apply fold_discover_inv.
+Qed.
+
+Lemma failed_discover_inv d : dir_inv d -> dir_inv (failed_discover d).
+Proof. intros I. unfold failed_discover. now apply dir_inv_counters. Qed.
+
+(* ---- expiry ---- *)
+Definition expire_targets (d : dir) (now max_age : Z) : list string :=
+  dict_keys (filter (fun e => too_old now max_age (snd e)) (d_lights d)).
+
+Lemma too_old_iff now max_age v : too_old now max_age v = true <-> a_expired now max_age v.
+Proof. unfold too_old, a_expired. rewrite Z.gtb_lt. lia. Qed.
+
+Lemma a_expiredb_iff now max_age v : a_expiredb now max_age v = true <-> a_expired now max_age v.
+Proof. unfold a_expiredb, a_expired. rewrite Z.ltb_lt. lia. Qed.
+
+Lemma too_old_a_expiredb now max_age v : too_old now max_age v = a_expiredb now max_age v.
+Proof.
+  destruct (too_old now max_age v) eqn:E1; destruct (a_expiredb now max_age v) eqn:E2; auto.
+  - apply too_old_iff, a_expiredb_iff in E1. congruence.
+  - apply a_expiredb_iff, too_old_iff in E2. congruence.
+Qed.
+
+Lemma expire_targets_In d now max_age n : NoDup (dict_keys (d_lights d)) ->
+  (In n (expire_targets d now max_age) <-> exists v, In (n, v) (d_lights d) /\ a_expired now max_age v).
+Proof.
+  intros N. unfold expire_targets. split.
+  - intros H. apply keys_in in H as [v H]. apply filter_In in H as [H1 H2]. cbn [snd] in H2.
+    exists v. split; auto. now apply too_old_iff.
+  - intros [v [H1 H2]]. apply (in_keys _ n v). apply filter_In. split; auto. now apply too_old_iff.
+Qed.
+
+Lemma expire_lights_eq d now max_age : NoDup (dict_keys (d_lights d)) ->
+  d_lights (expire d now max_age) = filter (fun e => negb (a_expiredb now max_age (snd e))) (d_lights d).
+Proof.
+  intros N. unfold expire. cbn [d_lights]. fold (expire_targets d now max_age).
+  rewrite (fold_dict_del _ _ N). apply filter_ext_in. intros [n v] H. cbn [fst snd]. f_equal.
+  rewrite <- too_old_a_expiredb.
+  destruct (too_old now max_age v) eqn:E.
+  - apply memb_In. apply expire_targets_In; auto. exists v. split; auto. now apply too_old_iff.
+  - destruct (memb n (expire_targets d now max_age)) eqn:M; auto.
+    apply memb_In in M. apply expire_targets_In in M as [w [H1 H2]]; auto.
+    assert (w = v).
+    { apply (dict_get_In _ _ _ N) in H1. apply (dict_get_In _ _ _ N) in H. congruence. }
+    subst. apply too_old_iff in H2. congruence.
+Qed.
+
+Lemma expire_names_eq d now max_age : sorted (d_names d) ->
+  d_names (expire d now max_age) = filter (fun n => negb (memb n (expire_targets d now max_age))) (d_names d).
+Proof.
+  intros S. unfold expire. cbn [d_names]. fold (expire_targets d now max_age). now apply fold_sl_remove.
+Qed.
+
+Lemma members_expire proj d td now max_age :
+  NoDup (dict_keys (d_lights d)) -> members_inv proj (d_lights d) td ->
+  members_inv proj (d_lights (expire d now max_age))
+              (fold_left (fun td n => remove_memberships n td) (expire_targets d now max_age) td).
+Proof.
+  intros N M. pose proof (members_inv_wf _ _ _ M) as W. destruct M as [_ _ X].
+  destruct (fold_rm_wf (expire_targets d now max_age) td W) as [W1 W2]. constructor; auto.
+  intros g m. rewrite (fold_rm_listed _ _ _ _ W), X, (expire_lights_eq _ _ _ N).
+  rewrite (expire_targets_In _ _ _ _ N). split.
+  - intros [[v [H1 H2]] H3]. exists v. split; auto. apply filter_In. split; auto. cbn [snd].
+    destruct (a_expiredb now max_age v) eqn:E; auto. exfalso. apply H3. exists v. split; auto.
+    now apply a_expiredb_iff.
+  - intros [v [H1 H2]]. apply filter_In in H1 as [H1 H4]. cbn [snd] in H4. split; eauto.
+    intros [w [H5 H6]].
+    assert (w = v).
+    { apply (dict_get_In _ _ _ N) in H1. apply (dict_get_In _ _ _ N) in H5. congruence. }
+    subst. apply a_expiredb_iff in H6. rewrite H6 in H4. discriminate.
+Qed.
+
+Lemma expire_inv d now max_age : dir_inv d -> dir_inv (expire d now max_age).
+Proof.
+  intros [A B C D E]. constructor.
+  - rewrite (expire_names_eq _ _ _ A). now apply filter_sorted.
+  - rewrite (expire_lights_eq _ _ _ B). now apply filter_keys_NoDup.
+  - intros n. rewrite (expire_names_eq _ _ _ A), (expire_lights_eq _ _ _ B), filter_In, C.
+    rewrite negb_true_iff. split.
+    + intros [H1 H2]. apply keys_in in H1 as [v H1]. apply (in_keys _ n v). apply filter_In.
+      split; auto. cbn [snd]. destruct (a_expiredb now max_age v) eqn:X; auto.
+      assert (In n (expire_targets d now max_age)).
+      { apply expire_targets_In; auto. exists v. split; auto. now apply a_expiredb_iff. }
+      apply memb_In in H. congruence.
+    + intros H. apply keys_in in H as [v H]. apply filter_In in H as [H1 H2]. cbn [snd] in H2.
+      split; [eapply in_keys; eauto|].
+      destruct (memb n (expire_targets d now max_age)) eqn:X; auto.
+      apply memb_In in X. apply expire_targets_In in X as [w [H5 H6]]; auto.
+      assert (w = v).
+      { apply (dict_get_In _ _ _ B) in H1. apply (dict_get_In _ _ _ B) in H5. congruence. }
+      subst. apply a_expiredb_iff in H6. rewrite H6 in H2. discriminate.
+  - apply (members_expire l_group d (d_groups d) now max_age B D).
+  - apply (members_expire l_loc d (d_locs d) now max_age B E).
+Qed.
+
+Lemma do_step_inv d s : dir_inv d -> dir_inv (do_step d s).
+Proof.
+  destruct s; cbn [do_step]; intros I.
+  - now apply discover_inv.
+  - now apply failed_discover_inv.
+  - now apply expire_inv.
+Qed.
+
+Lemma fold_steps_inv h : forall d, dir_inv d -> dir_inv (fold_left do_step h d).
+Proof.
+  induction h as [|s h IH]; intros d I; cbn [fold_left]; auto. apply IH. now apply do_step_inv.
+Qed.
+
+Theorem dir_inv_reachable : forall history, dir_inv (fold_left do_step history empty_dir).
+Proof. intros h. apply fold_steps_inv. apply dir_inv_empty. Qed.
+
+(* Expiry removes exactly the lights not seen for longer than max_age, with all
+   their memberships, and touches nothing else. *)
+Theorem expire_exact : forall d now max_age, dir_inv d ->
+  let d' := expire d now max_age in
+  let gone n := exists v, In (n, v) (d_lights d) /\ a_expired now max_age v in
+  d_lights d' = filter (fun e => negb (a_expiredb now max_age (snd e))) (d_lights d) /\
+  (forall n v, In (n, v) (d_lights d') <-> In (n, v) (d_lights d) /\ ~ a_expired now max_age v) /\
+  (forall n, In n (d_names d') <-> In n (d_names d) /\ ~ gone n) /\
+  (forall g n, listed (d_groups d') g n <-> listed (d_groups d) g n /\ ~ gone n) /\
+  (forall g n, listed (d_locs d') g n <-> listed (d_locs d) g n /\ ~ gone n) /\
+  d_ok d' = d_ok d /\ d_fail d' = d_fail d /\
+  dir_inv d'.
+Proof.
+  intros d now max_age I d' gone. pose proof (expire_inv d now max_age I) as I'.
+  destruct I as [A B C D E].
+  split; [now apply expire_lights_eq|]. split; [|split; [|split; [|split]]].
+  - intros n v. unfold d'. rewrite (expire_lights_eq _ _ _ B), filter_In. cbn [snd].
+    rewrite negb_true_iff, <- a_expiredb_iff.
+    destruct (a_expiredb now max_age v); intuition congruence.
+  - intros n. unfold d'. rewrite (expire_names_eq _ _ _ A), filter_In, negb_true_iff.
+    unfold gone. rewrite <- (expire_targets_In _ _ _ _ B), <- (memb_In n (expire_targets d now max_age)).
+    destruct (memb n (expire_targets d now max_age)); split; intros [H1 H2]; split; auto; try congruence; exfalso; apply H2; reflexivity.
+  - intros g n. unfold d', gone, expire. cbn [d_groups]. fold (expire_targets d now max_age).
+    rewrite (fold_rm_listed _ _ _ _ (members_inv_wf _ _ _ D)), (expire_targets_In _ _ _ _ B). tauto.
+  - intros g n. unfold d', gone, expire. cbn [d_locs]. fold (expire_targets d now max_age).
+    rewrite (fold_rm_listed _ _ _ _ (members_inv_wf _ _ _ E)), (expire_targets_In _ _ _ _ B). tauto.
+  - split; [reflexivity|split; [reflexivity|exact I']].
+Qed.
